@@ -53,6 +53,9 @@ structure World where
   handling the last fetched entry; handled after the join it sees the full log length and lifts the
   status to len/len, at a moment the trace does not record (seen under CPU load) -/
   lateLoad : List Nat := []
+  justLoaded : List Nat := []                     -- stores whose next observation is the first one after a restart + Load
+  gone : List Nat := []                           -- blocks nobody holds any more (`dropblock`)
+  unreachFail : Bool := false                     -- a block nobody holds is reported as not found at once (`unreach=fail`)
   badOps : List Nat := []                         -- entries whose payload does not decode as an operation at all (a writer is not bound to the store API)
   liveLoaded : List Nat := []                     -- stores on which `Load` was called again while open (followed from the implementation until the next restart)
   partialStores : List Nat := []                  -- stores loaded with a limit below what is persisted (until the next unlimited load)
@@ -124,7 +127,7 @@ def World.onScn (_ : World) (toks : List String) : World :=
   let acl : Acl := if aclS == "*" then { wildcard := true } else { ids := (commaList aclS).map peerNum }
   let peers := (commaList (arg toks "peers")).map peerNum
   { scn := toks.getD 1 "?", kind := kind, acl := acl, dbKinds := [(0, kind)], dbAcls := [(0, acl)],
-    stores := peers.map (fun p => (p, { kind := kind })) }
+    stores := peers.map (fun p => (p, { kind := kind })), unreachFail := arg toks "unreach" == "fail" }
 
 /-- model `AddOperation` for the declared entry `n`, compared with the implementation's entry -/
 def World.modelAdd (w : World) (p : Nat) (n : Nat) : World :=
@@ -462,6 +465,11 @@ def World.onObs1 (w : World) (toks : List String) : World :=
       let prop := if w.dbKind == Kind.kv then "C06" else "C07"
       if showKV want != showKV iidx then
         let w := w.fail prop "idx" s!"peer {p}: index {showKV iidx} but replay of its log {showNums iv} gives {showKV want}"
+        -- C05: what a Load has merged is readable when it returns, with or without an error (review of the
+        -- F32 repair: a Load that failed on one head returned before the view was rebuilt)
+        let w := if w.justLoaded.contains (w.key p) then
+            w.fail "C05" "readable" s!"peer {p}: after restart and Load the log lists {showNums iv} but the view is {showKV iidx} (replay: {showKV want})"
+          else w
         -- C12: an entry whose payload is not an operation the view knows changes nothing and stops nothing:
         -- what is written or merged afterwards must still show
         let w := if w.hadRaw then
@@ -619,6 +627,17 @@ def World.fetchAll (w : World) (h : Nat) : OMap :=
       go f ((w.entriesOf new).flatMap (fun e => e.next ++ e.refs)) (acc ++ new)
   w.entriesOf (go (w.entries.size + 1) [h] [])
 
+/-- the same with the blocks nobody holds any more left out: the walk stops at them -/
+def World.fetchHeld (w : World) (h : Nat) : OMap :=
+  let rec go (fuel : Nat) (frontier acc : List Nat) : List Nat :=
+    match fuel with
+    | 0 => acc
+    | f+1 =>
+      let new := (frontier.filter (fun h => !acc.contains h && (w.entry h).isSome && !w.gone.contains h)).eraseDups
+      if new.isEmpty then acc else
+      go f ((w.entriesOf new).flatMap (fun e => e.next ++ e.refs)) (acc ++ new)
+  w.entriesOf (go (w.entries.size + 1) [h] [])
+
 def World.onMsg (w : World) (toks : List String) : World :=
   if toks.getD 1 "" == "none" then { w with msgHeads := none } else
   let heads := namesToNums (arg toks "heads")
@@ -661,6 +680,7 @@ def World.onRestarted (w : World) (toks : List String) : World :=
   let cancelled := w.pending.contains "ctx=cancelled"
   let amount : Int := match w.pending.getD 2 "" with | "" => -1 | a => if a.startsWith "ctx=" then -1 else parseInt a
   let w := if arg toks "identity" != "true" then w.fail "C05" "identity" s!"peer {p} has a different identity after restart" else w
+  let w := { w with justLoaded := w.key p :: w.justLoaded }
   let w := if w.nDb > 1 then w.reloadOtherDbs p else w
   -- new instance, new replicators: nothing queued, nothing remembered
   let w := { w with repls := w.repls.filter (fun (x : Nat × Repl.St) => x.1 % 1000 != p) }
@@ -687,7 +707,18 @@ def World.onRestarted (w : World) (toks : List String) : World :=
     if r == "ok" then w.fail "C05" "load" s!"peer {p}: Load under a context that had already ended reported success; {full.length} persisted entries were not loaded"
     else w
   else
-  match s.loadChecked w.acl w.fetchAll amount with
+  -- a cached head whose block nobody holds any more (and the lookup says so at once): Load fails, and
+  -- what the OTHER heads led to is readable all the same
+  let lost := w.unreachFail && !w.gone.isEmpty
+  if lost && (s.loadChecked w.acl w.fetchHeld amount matches .error _) then
+    let s' := s.loadReadable w.acl w.fetchHeld amount
+    let w := { w.setStore p s' with limited := w.limited.filter (·.1 != w.key p),
+                                    mustRecover := w.mustRecover.filter (fun (x : Nat × List Nat) => x.1 != w.key p),
+                                    resync := w.key p :: w.resync }
+    if r == "ok" then w.fail "C05" "load" s!"peer {p}: Load reported success although the blocks of cached heads are gone"
+    else w
+  else
+  match s.loadChecked w.acl (if lost then w.fetchHeld else w.fetchAll) amount with
   | .ok s' =>
     let w := { w.setStore p s' with resync := w.key p :: w.resync }
     if r != "ok" then w.fail (if amount == -1 then "C05" else "C15") "load" s!"peer {p}: reopening and Load({amount}) failed ({r})" else w
@@ -718,6 +749,7 @@ def World.step (w : World) (line : String) : World :=
   | "op" =>
     let w := { w with pending := toks.drop 1 }
     let h := toks.getD 1 ""
+    let w := if h != "obs" && h != "restart" then { w with justLoaded := [] } else w
     let w := if h == "failget" then { w with faulty := true } else if h == "okget" then { w with faulty := false } else w
     let w := if h == "forge" && (arg? toks "raw").isSome then { w with hadRaw := true } else w
     -- a new instance / a new handle has a new replicator: nothing queued, nothing remembered
@@ -870,6 +902,7 @@ def World.step (w : World) (line : String) : World :=
   | "msg" => w.onMsg toks
   | "delivered" => w.onDelivered toks
   | "restarted" => w.onRestarted toks
+  | "blockgone" => { w with gone := entryNum (toks.getD 1 "") :: w.gone }
   | "panic" => w.fail "C12" "panic" (" ".intercalate (toks.drop 1))
   | "end" => { w with out := w.out.push s!"done scn={w.scn} fails={w.nFail} obs={w.nObs} entries={w.entries.size}" }
   | _ => w
